@@ -59,71 +59,7 @@ func symOutput() []byte {
 	return []byte(out)
 }
 
-// H_C06_roundtrip: what saveFailFile writes, loadFailFile reads back exactly.
-func H_C06_roundtrip() {
-	vfsReset()
-	seed := nondetU64("seed")
-	buf := symSlice("buf", 2)
-	output := symOutput()
-	name := "TestFoo"
-	_, filename := failFileName(name)
-	dir := scratchDir()
-	defer scratchDone(dir)
-	filename = filepath.Join(dir, filename)
-	err := saveFailFile(filename, rapidVersion, output, seed, buf)
-	vassert(err == nil, "C06: saveFailFile failed on a healthy file system")
-	version, seed2, buf2, err2 := loadFailFile(filename)
-	vassert(err2 == nil, "C06: a fail file that was just saved cannot be loaded (persisted failure would be ignored)")
-	if err2 != nil {
-		return
-	}
-	reach("loaded")
-	vassert(version == rapidVersion, "C06: version does not round-trip through the fail file")
-	vassert(seed2 == seed, "C06: seed does not round-trip through the fail file")
-	vassert(len(buf2) == len(buf), "C06: bitstream length does not round-trip through the fail file")
-	for i := 0; i < len(buf) && i < len(buf2); i++ {
-		vassert(buf2[i] == buf[i], "C06: bitstream does not round-trip through the fail file")
-	}
-	// the file is found by the discovery pattern of the same test name
-	ok, _ := filepath.Match(filepath.Join(dir, failFilePattern(name)), filename)
-	vassert(ok, "C06: the fail file name does not match the discovery pattern of its test")
-}
 
-// H_C06_roundtripLong: a long counterexample (600 words, about 11 KB of data lines: several refills
-// of the scanner's buffer), the first, a middle and the last word symbolic.
-func H_C06_roundtripLong() {
-	vfsReset()
-	seed := nondetU64("seed")
-	n := 600
-	buf := make([]uint64, n)
-	for i := range buf {
-		buf[i] = uint64(i+1) * 0x9E3779B97F4A7C15 >> uint(i%61)
-	}
-	buf[0], buf[n/2], buf[n-1] = nondetU64("first"), nondetU64("middle"), nondetU64("last")
-	output := []byte("some output\n")
-	if choose("bigOutput", 2) == 1 {
-		output = []byte(strings.Repeat("a line of captured output\n", 300))
-	}
-	name := "TestLong"
-	_, filename := failFileName(name)
-	dir := scratchDir()
-	defer scratchDone(dir)
-	filename = filepath.Join(dir, filename)
-	err := saveFailFile(filename, rapidVersion, output, seed, buf)
-	vassert(err == nil, "C06: saveFailFile failed on a healthy file system")
-	version, seed2, buf2, err2 := loadFailFile(filename)
-	vassert(err2 == nil, "C06: a fail file that was just saved cannot be loaded (persisted failure would be ignored)")
-	if err2 != nil {
-		return
-	}
-	reach("loaded")
-	vassert(version == rapidVersion, "C06: version does not round-trip through the fail file")
-	vassert(seed2 == seed, "C06: seed does not round-trip through the fail file")
-	vassert(len(buf2) == len(buf), "C06: bitstream length does not round-trip through the fail file")
-	for i := 0; i < len(buf) && i < len(buf2); i++ {
-		vassert(buf2[i] == buf[i], "C06: bitstream does not round-trip through the fail file")
-	}
-}
 
 var testNames = []string{"TestFoo", "Test/sub", "Тест", "a b", "CON", "com1", "x*y?[z]", "..", "t\\u", "日本/語", ""}
 
@@ -321,29 +257,6 @@ func H_C17_ignored() {
 	reach("compared")
 }
 
-// H_C17_loadTotal: loadFailFile returns an error or a result for every malformed shape; never panics.
-func H_C17_loadTotal() {
-	vfsReset()
-	k := choose("shape", nUnusable)
-	content, unreadable := unusableFile(k, 0)
-	vfs.files["f.fail"] = content
-	if unreadable {
-		vfs.failOpen["f.fail"] = true
-	}
-	version, _, buf, err := loadFailFile("f.fail")
-	if err != nil {
-		reach("error")
-		vassert(version == "" && buf == nil, "C17: loadFailFile returns data together with an error")
-	} else {
-		reach("loaded")
-	}
-	// checkFailFile never fails the test for these shapes (none of them falsifies the property)
-	d := &streamProp{}
-	tb := newVTB("T")
-	b2, e1, e2 := checkFailFile(tb, "f.fail", d.prop)
-	vassert(b2 == nil && e1 == nil && e2 == nil, "C17: an unusable fail file is not ignored by checkFailFile")
-	vassert(!tb.failed, "C17: an unusable fail file failed the test")
-}
 
 // H_C09_failfileFlaky: once a replayed fail file falsified the property, no fresh random test case runs.
 func H_C09_failfileFlaky() {
@@ -371,57 +284,90 @@ func H_C09_failfileFlaky() {
 
 func nondetFirstFailed(o *outcomeProp) bool { return o.calls >= 1 && o.firstOutcome == 2 }
 
-// H_C16_crash: killing the process at any file-system step of saveFailFile leaves only complete
-// fail files under discoverable names.
-func H_C16_crash() {
+
+// H_C17_mixed: unusable fail files next to a usable one (same seed, the unusable ones sorted
+// first) change nothing: the usable file is still replayed and fails the test "after 0 tests".
+func H_C17_mixed() {
 	seed := nondetU64("seed")
-	buf := symSlice("buf", 2)
-	var lines []string
-	nlines := choose("nlines", 3)
-	for i := 0; i < nlines; i++ {
-		lines = append(lines, []string{"", "log line", "# x", "0x1"}[choose("line"+itoa(i), 4)])
-	}
-	output := []byte(strings.Join(lines, "\n"))
-	name := failTestName()
-	dirName, filename := failFileName(name)
-	preexisting := choose("dirExists", 2) == 1
-
-	setup := func() {
+	flags.shrinkTime = 0
+	name := "TestFoo"
+	run := func(nfiles int) (*streamProp, []any) {
 		vfsReset()
-		if preexisting {
-			_ = vfsMkdirAll(dirName, 0775)
-			vfs.step = 0
-		}
-	}
-	// reference: the uninterrupted save
-	setup()
-	err := saveFailFile(filename, rapidVersion, output, seed, buf)
-	vassert(err == nil, "C16: saveFailFile failed on a healthy file system")
-	ref, ok := vfs.files[filename]
-	vassert(ok && len(vfs.files) == 1, "C16: an uninterrupted save must leave exactly the fail file")
-	K := vfs.step
-
-	// the same save, killed in front of step c (or in the middle of a write)
-	setup()
-	vfs.crashAt = choose("crashAt", K)
-	vfs.partial = choose("partial", 4)
-	crashed := runUntilCrash(func() { _ = saveFailFile(filename, rapidVersion, output, seed, buf) })
-	vassert(crashed, "C16: the crash point was not reached")
-	reach("crashed")
-	for _, p := range vfs.paths() {
-		content := vfs.files[p]
-		discoverable, _ := filepath.Match(failFilePattern(name), p)
-		if discoverable || p == filename {
-			reach("final-name-visible")
-			vassert(content == ref, "C16: a file a later run would pick up is incomplete or differs from the uninterrupted save")
-		} else {
-			reach("temp-visible")
-			vassert(strings.HasPrefix(filepath.Base(p), "."), "C16: partial data is visible under a name that is not a hidden temporary name")
-			vassert(filepath.Dir(p) == filepath.Dir(filename), "C16: the temporary file is not in the directory of the fail file (rename would not be atomic)")
-			for _, other := range testNames {
-				m, _ := filepath.Match(failFilePattern(other), p)
-				vassert(!m, "C16: a temporary file matches the fail file discovery pattern of some test")
+		dir, _ := failFileName(name)
+		_ = vfsMkdirAll(dir, 0775)
+		for i := 0; i < nfiles; i++ {
+			content, unreadable := unusableFile(choose("file"+itoa(i), nUnusable), 0)
+			p := filepath.Join(dir, kindaSafeFilename(name)+"-2026-"+itoa(i)+".fail")
+			vfs.files[p] = content
+			if unreadable {
+				vfs.failOpen[p] = true
 			}
 		}
+		vfs.files[filepath.Join(dir, kindaSafeFilename(name)+"-2026-9.fail")] = rapidVersion + "#7\n0x3" // usable: fails when replayed
+		d := &streamProp{}
+		tb := newVTB(name)
+		valid, invalid, early, s, failfile, buf, err1, err2 := doCheck(tb, farDeadline(), 2, seed, "", true, d.prop)
+		return d, []any{valid, invalid, early, s, failfile, len(buf), err1 != nil, err2 != nil, errorString(err1), errorString(err2)}
 	}
+	nfiles := 1
+	if thorough() {
+		nfiles = 1 + choose("nfiles", 2)
+	}
+	dA, resA := run(nfiles)
+	dB, resB := run(0)
+	vassert(resB[6] == true && resB[0] == 0 && resB[1] == 0, "C06: a usable fail file was not replayed first")
+	for i := range resA {
+		vassert(resA[i] == resB[i], "C17: an unusable fail file next to a usable one changed the verdict of the run")
+	}
+	for i := range dA.random {
+		vassert(!dA.random[i], "C09: a random test case ran although a fail file falsified the property")
+	}
+	_ = dB
+	reach("compared")
+}
+
+// wideProp draws two words and passes; recProp below it is the failing sibling Check of the same test.
+type wideProp struct{ calls int }
+
+func (w *wideProp) prop(t *T) {
+	w.calls++
+	_ = t.s.drawBits(64)
+	_ = t.s.drawBits(64)
+}
+
+// H_C06_twoChecks: a test that calls Check twice. The second Check's persisted failure (one word)
+// is an invalid test case for the first Check's property (which draws two): on the next run the
+// first Check must leave the file alone, and the second must still replay it first.
+func H_C06_twoChecks() {
+	vfsReset()
+	flags.checks = 1
+	flags.shrinkTime = 0
+	flags.nofailfile = false
+	flags.seed = 0
+	name := "TestTwo"
+	// first run of the test: Check A passes, Check B fails and persists its failure
+	a1 := &wideProp{}
+	runIsolated(func() { checkTB(newVTB(name), farDeadline(), a1.prop) })
+	b1 := &streamProp{}
+	tbB1 := newVTB(name)
+	runIsolated(func() { checkTB(tbB1, farDeadline(), b1.prop) })
+	if !(len(tbB1.errorfs) == 1 && strings.Contains(tbB1.errorfs[0], "failed after")) {
+		reach("b-not-failed")
+		return
+	}
+	reach("b-failed")
+	files := countFiles(failFilePattern(name))
+	vassert(len(files) == 1, "C06: a failed Check must leave exactly one fail file matching the test's discovery pattern")
+	finalWord := b1.words[len(b1.words)-1]
+	// second run of the test
+	a2 := &wideProp{}
+	tbA2 := newVTB(name)
+	runIsolated(func() { checkTB(tbA2, farDeadline(), a2.prop) })
+	vassert(len(tbA2.errorfs) == 0, "C17: a fail file that is invalid for this property failed the test")
+	vassert(len(countFiles(failFilePattern(name))) == 1, "C06: a Check removed the persisted failure of another Check of the same test")
+	b2 := &streamProp{}
+	tbB2 := newVTB(name)
+	runIsolated(func() { checkTB(tbB2, farDeadline(), b2.prop) })
+	vassert(len(b2.words) >= 1 && !b2.random[0] && b2.words[0] == finalWord, "C06: the next Check did not replay the fail file before any random test case")
+	vassert(len(tbB2.errorfs) == 1 && strings.Contains(tbB2.errorfs[0], "failed after 0 tests"), "C06: the next Check did not fail 'after 0 tests' on the persisted failure")
 }
